@@ -1,6 +1,7 @@
 package utils
 
 import (
+	"net"
 	"bytes"
 	"io"
 	"strings"
@@ -211,13 +212,41 @@ func ZZ_C14_ByteReader(kind int) {
 	vrt.Reach("c14-bytereader-done")
 }
 
-// ZZ_C14_StealBytes: stealing from the standard single-chunk WriterTo implementations.
+// zzViewsWT writes views of ONE array, out of order ([0:2], [4:6], [2:4]): every view but the last has spare
+// capacity that covers bytes still to be written.
+type zzViewsWT struct{ arr []byte }
+
+func (w *zzViewsWT) WriteTo(dst io.Writer) (int64, error) {
+	var total int64
+	for _, v := range [][]byte{w.arr[0:2], w.arr[4:6], w.arr[2:4]} {
+		n, err := dst.Write(v)
+		total += int64(n)
+		if err != nil {
+			return total, err
+		}
+	}
+	return total, nil
+}
+
+// ZZ_C14_StealBytes: stealing from the standard single-chunk WriterTo implementations (0-2) and from multi-write
+// sources whose fragments are views of one array (3: a WriterTo, 4: net.Buffers).
 func ZZ_C14_StealBytes(kind int) {
 	n := vrt.Choose(6)
+	if kind >= 3 {
+		n = 6
+	}
 	content := vrt.Bytes(n)
 	snapshot := append([]byte(nil), content...)
+	if kind >= 3 {
+		snapshot = append(append(append([]byte(nil), content[0:2]...), content[4:6]...), content[2:4]...)
+	}
 	var w io.WriterTo
 	switch kind {
+	case 3:
+		w = &zzViewsWT{arr: content}
+	case 4:
+		nb := net.Buffers{content[0:2], content[4:6], content[2:4]}
+		w = &nb
 	case 0:
 		w = bytes.NewReader(content)
 	case 1:
